@@ -14,3 +14,115 @@ package edit
 //@   trusted
 //@   results specs err
 //@   ensures forall k int :: 0 <= k && k < len(specs.opts) ==> specs.opts[k] != nil
+
+// ---------------------------------------------------------------------------
+// C28: editor buffer commands keep the cursor valid and edit exactly.
+//
+// pureMover is the type of all cursor movers; its contract is what makeMove and
+// makeKill rely on, and each mover below is proved to satisfy it (plus what it
+// is documented to do). Byte offsets; "boundary" facts come from UTF8AX.
+
+//@ func pureMover
+//@   pure
+//@   requires 0 <= dot && dot <= len(buffer)
+//@   ensures 0 <= result && result <= len(buffer)
+
+//@ func verifMove
+//@   props C28
+//@   requires buf != nil && 0 <= buf.Dot && buf.Dot <= len(buf.Content)
+//@   ensures 0 <= buf.Dot && buf.Dot <= len(buf.Content) && buf.Content === old(buf.Content)
+
+//@ func verifKill
+//@   props C28
+//@   requires buf != nil && 0 <= buf.Dot && buf.Dot <= len(buf.Content)
+//@   ensures [cursor-valid] 0 <= buf.Dot && buf.Dot <= len(buf.Content) && buf.Dot <= old(buf.Dot)
+//@   ensures [length] len(buf.Content) <= len(old(buf.Content))
+//   exactly the text between the old and the new cursor is removed: the part before the (new) cursor
+//   and the part after the removed range are unchanged
+//@   ensures [prefix-kept] forall k int :: 0 <= k && k < buf.Dot ==> buf.Content[k] == old(buf.Content)[k]
+//@   ensures [suffix-kept] forall k int :: buf.Dot <= k && k < len(buf.Content) ==> buf.Content[k] == old(buf.Content)[k + (len(old(buf.Content)) - len(buf.Content))]
+
+//@ func moveDotLeft
+//@   props C28
+//@   pure
+//@   requires 0 <= dot && dot <= len(buffer)
+//@   ensures 0 <= result && result <= dot
+//@   ensures dot > 0 ==> result < dot && dot - result <= 4
+//@   ensures result == dot - lastsize(buffer, dot)
+
+//@ func moveDotRight
+//@   props C28
+//@   pure
+//@   requires 0 <= dot && dot <= len(buffer)
+//@   ensures dot <= result && result <= len(buffer)
+//@   ensures dot < len(buffer) ==> result > dot && result - dot <= 4
+//@   ensures result == dot + sizeat(buffer, dot)
+
+//@ func moveDotSOL
+//@   props C28
+//@   pure
+//@   requires 0 <= dot && dot <= len(buffer)
+//@   ensures 0 <= result && result <= dot && nl(buffer, result, dot) == 0
+//@   ensures result == 0 || buffer[result-1] == '\n'
+
+//@ func moveDotEOL
+//@   props C28
+//@   pure
+//@   requires 0 <= dot && dot <= len(buffer)
+//@   ensures dot <= result && result <= len(buffer) && nl(buffer, dot, result) == 0
+//@   ensures result == len(buffer) || buffer[result] == '\n'
+
+//@ func moveDotUp
+//@   props C28
+//@   pure
+//@   requires 0 <= dot && dot <= len(buffer)
+//@   ensures 0 <= result && result <= dot
+
+//@ func moveDotDown
+//@   props C28
+//@   pure
+//@   requires 0 <= dot && dot <= len(buffer)
+//@   ensures dot <= result && result <= len(buffer)
+
+//@ func skipCatLeft
+//@   props C28
+//@   pure
+//@   requires 0 <= pos && pos <= len(buffer)
+//@   ensures 0 <= result && result <= pos
+//@ func skipCatRight
+//@   props C28
+//@   pure
+//@   requires 0 <= pos && pos <= len(buffer)
+//@   ensures pos <= result && result <= len(buffer)
+//@ func skipSameCatLeft
+//@   props C28
+//@   pure
+//@   requires 0 <= pos && pos <= len(buffer)
+//@   ensures 0 <= result && result <= pos
+//@ func skipSameCatRight
+//@   props C28
+//@   pure
+//@   requires 0 <= pos && pos <= len(buffer)
+//@   ensures pos <= result && result <= len(buffer)
+//@ func skipWsLeft
+//@   inline
+//@ func skipWsRight
+//@   inline
+
+//@ func moveDotLeftGeneralWord
+//@   props C28
+//@   pure
+//@   requires 0 <= dot && dot <= len(buffer)
+//@   ensures 0 <= result && result <= dot
+//@ func moveDotRightGeneralWord
+//@   props C28
+//@   pure
+//@   requires 0 <= dot && dot <= len(buffer)
+//@   ensures dot <= result && result <= len(buffer)
+
+//@ func transposeRunes
+//@   props C28
+//@   pure
+//@   results nb nd
+//@   requires 0 <= dot && dot <= len(buffer)
+//@   ensures 0 <= nd && nd <= len(nb)
